@@ -12,6 +12,8 @@ import FordModel.Lemmas.ExternalRT
 import FordModel.Lemmas.ExternalReach
 import FordModel.Lemmas.ExternalUrl
 import FordModel.Lemmas.ExternalMulti
+import FordModel.ExternalGraph
+import FordModel.Lemmas.ExternalGraph
 namespace Ford.C16
 open Ford Ford.Ext
 
@@ -444,6 +446,69 @@ theorem leaving_the_loop_loses_later_projects_witness :
     (loadAllWith (fun _ => .stop) [x, a] []).count = 0 ∧
     (loadAllWith (fun _ => .stop) [a, x] []).count = 1 ∧
     (loadAllWith (fun _ => .proceed) [x, a] []).count = 1 := by
+  decide
+
+/-! ## Round 4: the nodes of B's graphs (used modules, called procedures, extended types, component types) -/
+
+/-- "every public entity of A that B uses, extends, *calls* ... is linked to a URL that exists in A's
+    documentation" - on the nodes of B's graphs: the node made for an entity imported from an external project
+    carries exactly the URL the entity was imported with (`external_url`, re-based on A's location), whatever the
+    path from the page back to the top of B's site (`parent_dir`), whether A is given by a local path or by a
+    remote URL, and whichever External* class the entity has.  Holds for the test read from
+    `BaseNode.__init__` (`Gen.nodeVerbatim`) and the classes it turns into strings (`Gen.nodeStringified`). -/
+theorem graph_node_of_external_entity_carries_its_url (parentDir cls name url : Str)
+    (h : plainLink url name = true) :
+    nodeUrl parentDir { external := true, cls := cls, name := name, url := some url, visible := true } = some url := by
+  have hu : url.isEmpty = false := by
+    have := (plainLink_url url name h).1
+    cases url <;> simp_all
+  unfold nodeUrl nodeUrlWith
+  cases hc : Gen.nodeStringified.contains cls
+  · simp [hu, Gen.nodeVerbatim, evalCond, evalAtom]
+  · simp [hu, parseLink_strOfExternal url name h, Gen.nodeVerbatim, evalCond, evalAtom]
+
+/-- Non-vacuity: local paths (spaces, `#anchor`) and remote URLs are in the class the theorem is stated for. -/
+example : plainLink (chars! "/abs/with space/doc/type/t.html#boundprocedure-b") (chars! "b") = true ∧
+    plainLink (chars! "https://ex.invalid/~user/a.b/module/m.html") (chars! "Amod1") = true := by
+  decide
+
+/-- The same with the URL spelled out: an entity exported with `get_url() = u` from a project at `b` (local
+    directory or remote URL) is, on every node B's graphs make for it, linked to `b / u` - the page of A's own
+    documentation (`roundtrip` gives the import, this the step from the imported object to the node). -/
+theorem graph_node_roundtrip (b : Base) (parentDir cls name u : Str)
+    (h : plainLink (rebase b u) name = true) :
+    nodeUrl parentDir { external := true, cls := cls, name := name,
+                        url := some (rebase b (afterFirstSlash ('.' :: '/' :: u))), visible := true }
+      = some (rebase b u) := by
+  rw [strip_first_segment]
+  exact graph_node_of_external_entity_carries_its_url parentDir cls name (rebase b u) h
+
+/-- "... costs only the links": an imported entity without a usable URL (falsy `external_url`) gives a node
+    without a link - never a link to somewhere inside B.  Excluded (see the witness): a *name* that is itself
+    written like a link. -/
+theorem graph_node_without_url_is_not_a_link_partial (parentDir cls name : Str) (hn : parseLink name = none) :
+    nodeUrl parentDir { external := true, cls := cls, name := name, url := none, visible := true } = none := by
+  unfold nodeUrl nodeUrlWith
+  cases hc : Gen.nodeStringified.contains cls <;> simp [strOfExternal, hn]
+
+/-- The excluded class is real: the string made from the object is matched against HYPERLINK_RE whatever it came
+    from, so a description whose `name` is `<a href='x'>y</a>` (and whose URL is empty) yields a node linked to `x`. -/
+theorem graph_node_without_url_is_not_a_link_witness :
+    nodeUrlWith (.or (.atom .fromstr) (.atom .hasExternalUrl)) [chars! "ExternalModule"] (chars! "../")
+      { external := true, cls := chars! "ExternalModule", name := chars! "<a href='x'>y</a>", url := none,
+        visible := true } = some ['x'] := by
+  decide
+
+/-- Why `graph_node_of_external_entity_carries_its_url` is load-bearing: with a test that looks at the URL instead
+    ("it has a scheme, so it is complete"), the absolute file-system path of a local-path external project is
+    taken for a path inside B and prefixed with `../` - a dead link - while a remote URL stays intact. -/
+theorem scheme_test_breaks_local_externals_witness :
+    let o (u : Str) : NodeObj := { external := true, cls := chars! "ExternalModule", name := ['m'],
+                                   url := some u, visible := true }
+    nodeUrlWith (.atom .urlHasScheme) Gen.nodeStringified (chars! "../") (o (chars! "/abs/A/doc/module/m.html"))
+      = some (chars! "..//abs/A/doc/module/m.html") ∧
+    nodeUrlWith (.atom .urlHasScheme) Gen.nodeStringified (chars! "../") (o (chars! "https://h/a/module/m.html"))
+      = some (chars! "https://h/a/module/m.html") := by
   decide
 
 /-- Non-vacuity: a two-level module tree is valid, and its round trip appends the module and its
